@@ -43,6 +43,10 @@
 //! job-control shell, pipe ends of pipelines / command substitutions); no trap command set by the parent runs
 //! in a subshell; the parent process state after the run equals `A0`. A missing snapshot is accepted only when
 //! `errexit` can have ended that shell.
+//!
+//! Second case family, `X:<pid> <call>; …` (see "`X:` cases" below): a schedule of raw system calls of several
+//! processes on ONE real `SystemState`, each process driven through its own `VirtualSystem` handle in the order
+//! the case says; the whole process table is printed after every step (model: Fork/Shared.lean).
 
 use std::cell::RefCell;
 use std::collections::BTreeMap;
@@ -52,8 +56,10 @@ use yash_env::io::Fd;
 use yash_env::semantics::{ExitStatus, Field};
 use yash_env::signal::Number;
 use yash_env::system::concurrency::WriteAll as _;
+use yash_env::job::Pid;
 use yash_env::system::r#virtual::{
     FileBody, Inode, SIGINT, SIGKILL, SIGQUIT, SIGTERM, SIGTSTP, SIGTTIN, SIGTTOU, SIGURG, SIGUSR1, SystemState,
+    VirtualSystem,
 };
 use yash_env::system::{Disposition, FdFlag, GetPid as _, Mode, SendSignal as _, Umask as _};
 use yverif::proto::{Opts, dec_bytes, emit, enc_str, guarded, quiet_panics};
@@ -1135,6 +1141,9 @@ fn observe(c: &Case, r: &Run) -> String {
 }
 
 fn run_case(text: &str) -> (String, String) {
+    if text.trim_start().starts_with("X:") {
+        return run_xcase(text);
+    }
     let Some(c) = parse_case(text) else {
         return ("bad-case".to_string(), "-".to_string());
     };
@@ -1143,6 +1152,332 @@ fn run_case(text: &str) -> (String, String) {
     let r = run_script(&render(&c, false), args.clone(), &su);
     let control = if c.during.is_empty() { None } else { Some(run_script(&render(&c, true), args, &su)) };
     (observe(&c, &r), oracle(&c, &r, control.as_ref()))
+}
+
+// ------------------------------------------------------------------------------------------------
+// `X:` cases — raw system calls of several processes on ONE real `SystemState`, any interleaving
+//
+//   X:<pid> fork | umask M | chdir D | open F | dup N MIN [x] | dup2 N M | close N | cloexec N 0|1 |
+//           sigaction SIG D|I|C | block SIG | unblock SIG | rlimit 4|16|18|unlimited
+//
+// Every process is a handle `VirtualSystem { state: Rc::clone(..), process_id }` on the same state, exactly
+// as `VirtualSystem::run_in_child_process` builds the child's handle.  `fork` IS that method (with an executor
+// that never runs the child task: the harness drives the child's handle itself, so that the schedule is the
+// one the case names and not the one the executor would choose).  After every step the WHOLE process table is
+// printed.  Oracle (independent of the Lean model): a call changes at most the caller's entry; a fork adds one
+// entry, equal to the forking process's (fd table, cwd, umask, dispositions, mask, limit), and changes no other.
+
+#[derive(Debug)]
+struct NullExecutor;
+
+impl yash_env::system::r#virtual::Executor for NullExecutor {
+    fn spawn(
+        &self,
+        _task: std::pin::Pin<Box<dyn std::future::Future<Output = ()>>>,
+    ) -> Result<(), Box<dyn std::error::Error>> {
+        Ok(())
+    }
+}
+
+const XDIRS: [&str; 6] = ["/d1", "/d2", "/d1/s", "s", ".", "/dx"];
+const XFDS: [&str; 9] = ["0", "1", "2", "3", "4", "5", "10", "17", "20"];
+const XLIMITS: [&str; 4] = ["4", "16", "18", "unlimited"];
+const XSIGS: [&str; 5] = ["INT", "QUIT", "TERM", "URG", "USR1"];
+
+fn errno_name(e: yash_env::system::Errno) -> String {
+    use yash_env::system::Errno;
+    if e == Errno::EBADF {
+        "EBADF".into()
+    } else if e == Errno::EMFILE {
+        "EMFILE".into()
+    } else if e == Errno::ENOENT {
+        "ENOENT".into()
+    } else if e == Errno::ENOTDIR {
+        "ENOTDIR".into()
+    } else {
+        format!("E{}", e.0)
+    }
+}
+
+/// one entry of the table: `pid(ppid){cwd= um= fd= d= l= b=}`
+fn x_entry(sys: &VirtualSystem, pid: Pid) -> String {
+    use yash_env::system::Sigset as _;
+    use yash_env::system::resource::{GetRlimit as _, INFINITY, Resource};
+    let handle = VirtualSystem { state: Rc::clone(&sys.state), process_id: pid };
+    let lim = handle.getrlimit(Resource::NOFILE).map(|l| l.soft).unwrap_or(INFINITY);
+    // the only way to read a process's mask from outside the crate: set it and put it back
+    let um = handle.umask(Mode::empty());
+    handle.umask(um);
+    let state = sys.state.borrow();
+    let p = &state.processes[&pid];
+    let blocked: Vec<&str> = SIGS
+        .iter()
+        .filter_map(|(n, s)| s.and_then(|s| if p.blocked_signals().contains(s).unwrap_or(false) { Some(*n) } else { None }))
+        .collect();
+    format!(
+        "{}({}){{{} l={} b={}}}",
+        pid.0,
+        p.ppid().0,
+        sys_view(&state, pid, um.bits() as u32),
+        if lim == INFINITY { "unlimited".to_string() } else { lim.to_string() },
+        blocked.join(",")
+    )
+}
+
+fn x_table(sys: &VirtualSystem) -> Vec<(i32, String)> {
+    let pids: Vec<Pid> = sys.state.borrow().processes.keys().copied().collect();
+    pids.into_iter().map(|pid| (pid.0 as i32, x_entry(sys, pid))).collect()
+}
+
+/// the part of an entry after `pid(ppid)`
+fn x_body(entry: &str) -> &str {
+    entry.find('{').map(|i| &entry[i..]).unwrap_or(entry)
+}
+
+fn x_step(sys: &VirtualSystem, pid: Pid, ws: &[&str]) -> Option<String> {
+    use futures_util::FutureExt as _;
+    use yash_env::system::resource::{INFINITY, LimitPair, Resource, SetRlimit as _};
+    use yash_env::system::{
+        Chdir as _, Close as _, Dup as _, Fcntl as _, Fork as _, OfdAccess, Open as _, Sigaction as _, Sigmask as _,
+        SigmaskOp,
+    };
+    let h = VirtualSystem { state: Rc::clone(&sys.state), process_id: pid };
+    let fd = |s: &str| -> Option<Fd> {
+        if is_in(s, &XFDS) { s.parse::<i32>().ok().map(Fd) } else { None }
+    };
+    let sig = |s: &str| -> Option<Number> {
+        if is_in(s, &XSIGS) { sig_number(s) } else { None }
+    };
+    let cpath = |s: &str| std::ffi::CString::new(s).unwrap();
+    let res_fd = |r: Result<Fd, yash_env::system::Errno>| match r {
+        Ok(fd) => format!("fd{}", fd.0),
+        Err(e) => errno_name(e),
+    };
+    let res_unit = |r: Result<(), yash_env::system::Errno>| match r {
+        Ok(()) => "ok".to_string(),
+        Err(e) => errno_name(e),
+    };
+    Some(match ws {
+        ["fork"] => {
+            let (r, ()) = h.run_in_child_process((), async |_child: VirtualSystem, ()| {});
+            match r {
+                Ok(pid) => format!("pid{}", pid.0),
+                Err(e) => errno_name(e),
+            }
+        }
+        ["umask", m] if is_in(m, &MASKS) => {
+            h.umask(Mode::from_bits_retain(u32::from_str_radix(m, 8).ok()? as _));
+            "ok".into()
+        }
+        ["chdir", d] if is_in(d, &XDIRS) => res_unit(h.chdir(&cpath(d))),
+        ["open", f] if is_in(f, &FILES) => {
+            let r = h
+                .open(&cpath(&format!("/o/{f}")), OfdAccess::WriteOnly, enumset::EnumSet::empty(), Mode::empty())
+                .now_or_never()?;
+            res_fd(r)
+        }
+        ["dup", n, m] => res_fd(h.dup(fd(n)?, fd(m)?, enumset::EnumSet::empty())),
+        ["dup", n, m, "x"] => res_fd(h.dup(fd(n)?, fd(m)?, FdFlag::CloseOnExec.into())),
+        ["dup2", n, m] => res_fd(h.dup2(fd(n)?, fd(m)?)),
+        ["close", n] => res_unit(h.close(fd(n)?)),
+        ["cloexec", n, b] if *b == "0" || *b == "1" => res_unit(h.fcntl_setfd(
+            fd(n)?,
+            if *b == "1" { FdFlag::CloseOnExec.into() } else { enumset::EnumSet::empty() },
+        )),
+        ["sigaction", s, d] => {
+            let d = match *d {
+                "D" => Disposition::Default,
+                "I" => Disposition::Ignore,
+                "C" => Disposition::Catch,
+                _ => return None,
+            };
+            res_unit(h.sigaction(sig(s)?, d).map(|_| ()))
+        }
+        [op @ ("block" | "unblock"), s] => {
+            let set: <VirtualSystem as yash_env::system::Sigmask>::Sigset = sig(s)?.into();
+            let how = if *op == "block" { SigmaskOp::Add } else { SigmaskOp::Remove };
+            res_unit(h.sigmask(Some((how, &set)), None).now_or_never()?)
+        }
+        ["rlimit", v] if is_in(v, &XLIMITS) => {
+            let soft = if *v == "unlimited" { INFINITY } else { v.parse().ok()? };
+            res_unit(h.setrlimit(Resource::NOFILE, LimitPair { soft, hard: INFINITY }))
+        }
+        _ => return None,
+    })
+}
+
+fn run_xcase(text: &str) -> (String, String) {
+    let bad = ("bad-case".to_string(), "-".to_string());
+    let items: Vec<&str> = text.split(';').map(|s| s.trim()).filter(|s| !s.is_empty()).collect();
+    if items.is_empty() || items.len() > 40 {
+        return bad;
+    }
+    let sys = VirtualSystem::new();
+    {
+        let mut st = sys.state.borrow_mut();
+        st.executor = Some(Rc::new(NullExecutor));
+        for p in ["/d1/s/keep", "/d2/keep", "/o/in", "/o/f1", "/o/f2", "/dev/null"] {
+            st.file_system.save(p, Rc::new(RefCell::new(Inode::new(b"x".to_vec())))).unwrap();
+        }
+    }
+    let mut prev = x_table(&sys);
+    let show = |t: &[(i32, String)]| t.iter().map(|e| e.1.clone()).collect::<Vec<_>>().join(" ");
+    let mut out = vec![format!("start {}", show(&prev))];
+    let mut fails: Vec<String> = vec![];
+    for (k, item) in items.iter().enumerate() {
+        let Some(body) = item.strip_prefix("X:") else { return bad };
+        let ws: Vec<&str> = body.split_whitespace().collect();
+        let Some((pid_s, ws)) = ws.split_first() else { return bad };
+        let Ok(pid) = pid_s.parse::<i32>() else { return bad };
+        if !(2..=40).contains(&pid) {
+            return bad;
+        }
+        let pid = Pid(pid as _);
+        let exists = sys.state.borrow().processes.contains_key(&pid);
+        let r = if exists {
+            match x_step(&sys, pid, ws) {
+                Some(r) => r,
+                None => return bad,
+            }
+        } else {
+            // a handle on a process that does not exist would panic in `current_process_mut`
+            if x_step(&VirtualSystem::new(), Pid(2), ws).is_none() {
+                return bad;
+            }
+            "nopid".to_string()
+        };
+        let cur = x_table(&sys);
+        out.push(format!("{} {}", r, show(&cur)));
+        // oracle
+        let forked = ws == ["fork"] && r.starts_with("pid");
+        for (q, e) in &prev {
+            match cur.iter().find(|c| c.0 == *q) {
+                None => fails.push(format!("step{k}:entry-gone[{q}]")),
+                Some(c) if c.1 != *e && (*q != pid.0 as i32 || forked || !exists) => {
+                    fails.push(format!("step{k}:foreign-entry-changed[{q}]"))
+                }
+                _ => {}
+            }
+        }
+        let fresh: Vec<&(i32, String)> = cur.iter().filter(|c| !prev.iter().any(|p| p.0 == c.0)).collect();
+        if forked {
+            let max_prev = prev.iter().map(|p| p.0).max().unwrap_or(1);
+            let parent_entry = prev.iter().find(|p| p.0 == pid.0 as i32).map(|p| p.1.clone()).unwrap_or_default();
+            match fresh.as_slice() {
+                [c] => {
+                    if c.0 != max_prev + 1 || r != format!("pid{}", c.0) {
+                        fails.push(format!("step{k}:fork-pid[{}]", c.0));
+                    }
+                    if !c.1.starts_with(&format!("{}({})", c.0, pid.0)) {
+                        fails.push(format!("step{k}:fork-ppid[{}]", c.0));
+                    }
+                    if x_body(&c.1) != x_body(&parent_entry) {
+                        fails.push(format!("step{k}:fork-copy[{}]", c.0));
+                    }
+                }
+                _ => fails.push(format!("step{k}:fork-entries[{}]", fresh.len())),
+            }
+        } else if !fresh.is_empty() {
+            fails.push(format!("step{k}:entry-appeared"));
+        }
+        prev = cur;
+    }
+    let oracle = if fails.is_empty() { "ok".to_string() } else { format!("FAIL:{}", fails.join("+")) };
+    (out.join(" / "), oracle)
+}
+
+/// one random call of the `X:` vocabulary
+fn gen_xcall(rng: &mut Rng) -> String {
+    match rng.below(13) {
+        0 => format!("umask {}", pick(rng, &MASKS)),
+        1 | 2 => format!("chdir {}", pick(rng, &XDIRS)),
+        3 => format!("open {}", pick(rng, &FILES)),
+        4 => format!("dup {} {}{}", pick(rng, &XFDS), pick(rng, &XFDS), if rng.chance(1, 2) { " x" } else { "" }),
+        5 => format!("dup2 {} {}", pick(rng, &XFDS), pick(rng, &XFDS)),
+        6 => format!("close {}", pick(rng, &XFDS[..7])),
+        7 => format!("cloexec {} {}", pick(rng, &XFDS[..7]), rng.below(2)),
+        8 | 9 => format!("sigaction {} {}", pick(rng, &XSIGS), pick(rng, &["D", "I", "C"])),
+        10 => format!("block {}", pick(rng, &XSIGS)),
+        11 => format!("unblock {}", pick(rng, &XSIGS)),
+        _ => format!("rlimit {}", pick(rng, &XLIMITS)),
+    }
+}
+
+fn gen_xcases(rng: &mut Rng, thorough: bool, cases: &mut Vec<String>) {
+    // (Xa) every call form by the forking process and by the forked one, right after the fork, after a
+    // preparation that makes the call meaningful — and the same one level deeper
+    let forms: Vec<String> = {
+        let mut v = vec![];
+        for m in MASKS {
+            v.push(format!("umask {m}"));
+        }
+        for d in XDIRS {
+            v.push(format!("chdir {d}"));
+        }
+        for f in FILES {
+            v.push(format!("open {f}"));
+        }
+        for (a, b) in [("1", "3"), ("1", "10"), ("3", "0"), ("5", "3"), ("2", "17"), ("2", "20")] {
+            v.push(format!("dup {a} {b}"));
+            v.push(format!("dup {a} {b} x"));
+            v.push(format!("dup2 {a} {b}"));
+        }
+        v.push("dup2 1 1".into());
+        for n in ["0", "1", "3", "10"] {
+            v.push(format!("close {n}"));
+            v.push(format!("cloexec {n} 1"));
+            v.push(format!("cloexec {n} 0"));
+        }
+        for s in XSIGS {
+            for d in ["D", "I", "C"] {
+                v.push(format!("sigaction {s} {d}"));
+            }
+            v.push(format!("block {s}"));
+            v.push(format!("unblock {s}"));
+        }
+        for l in XLIMITS {
+            v.push(format!("rlimit {l}"));
+        }
+        v
+    };
+    let preps = [
+        "",
+        "X:2 chdir /d1; X:2 umask 027; X:2 open f1; X:2 sigaction INT I; X:2 block QUIT; ",
+        "X:2 dup 1 10 x; X:2 rlimit 16; X:2 sigaction TERM C; X:2 block TERM; X:2 chdir /d2; ",
+        "X:2 open f2; X:2 dup 2 20; X:2 rlimit 4; X:2 umask 077; ",
+    ];
+    for (i, f) in forms.iter().enumerate() {
+        for (j, prep) in preps.iter().enumerate() {
+            if !thorough && (i + j) % 2 == 1 {
+                continue;
+            }
+            cases.push(format!("{prep}X:2 fork; X:3 {f}; X:2 {}", forms[(i * 7 + j) % forms.len()]));
+            cases.push(format!("{prep}X:2 fork; X:2 {f}; X:3 {}", forms[(i * 5 + j + 1) % forms.len()]));
+            if thorough || (i + j) % 4 == 0 {
+                cases.push(format!("{prep}X:2 fork; X:3 fork; X:4 {f}; X:3 {f}; X:2 fork; X:5 {f}"));
+            }
+        }
+    }
+    // (Xb) random schedules of up to five processes
+    let n = if thorough { 16_000 } else { 600 };
+    for _ in 0..n {
+        let mut nproc = 1;
+        let steps = 2 + rng.below(11);
+        let mut parts = vec![];
+        for _ in 0..steps {
+            // sometimes a handle on a pid that does not exist (yet)
+            let pid = if rng.chance(1, 40) { 2 + nproc + rng.below(2) } else { 2 + rng.below(nproc) };
+            if nproc < 5 && rng.chance(1, 5) {
+                parts.push(format!("X:{pid} fork"));
+                if pid < 2 + nproc {
+                    nproc += 1;
+                }
+            } else {
+                parts.push(format!("X:{pid} {}", gen_xcall(rng)));
+            }
+        }
+        cases.push(parts.join("; "));
+    }
 }
 
 // ------------------------------------------------------------------------------------------------
@@ -1665,6 +2000,8 @@ fn main() {
         let in_fn = rng.chance(1, 4);
         cases.push(gen_case(&mut rng, &pro, &kinds, &child, &during, in_fn, true));
     }
+    // (X) raw system calls of several processes on one `SystemState`, arbitrary interleavings
+    gen_xcases(&mut rng, o.thorough(), &mut cases);
     for (k, c) in cases.iter().enumerate() {
         if k % o.shard.1 != o.shard.0 {
             continue;
